@@ -326,6 +326,28 @@ def opStrandShare : Handler := fun j => do
   pure (jObj [("subtotals", subsToJson subs), ("sums", sblocksJson sm), ("share_sum", sblocksJson sh),
               ("spec_share", jVals (tab1 (n + subs.length) (ShareSpec.strandShare E n)))])
 
+/-- op `merge_cube`: {vars (two categorical variables), wdata, rows: dim, cols: dim} ↦ for every subtotal
+    WITHOUT subtrahends the Spec's merged table `mergeAxis (valid cube) axis addends` and the CAT × CAT
+    extractor's primitives on it (the right-hand side of `C04.merge_equiv_rows / _cols`) -/
+def opMergeCube : Handler := fun j => do
+  let vars ← Counts.varsOfJson (← getField j "vars")
+  let wdata ← getVals j "wdata"
+  let rd ← dimOfJson (← getField j "rows")
+  let cd ← dimOfJson (← getField j "cols")
+  let c := validCube vars (FT.ofFlat (rawShapeOf vars) wdata)
+  let one (ax : Nat) (subs : List Subtotal) : Json :=
+    .arr ((subs.map (fun s =>
+      if s.isDiff || s.addendIdxs.isEmpty then Json.null
+      else
+        let c' := SubSpec.mergeAxis c ax s.addendIdxs
+        let m := MatCounts.catXcat c'
+        jObj [("counts", jMat (tab2 m.nrows m.ncols m.counts)),
+              ("row_bases", jMat (tab2 m.nrows m.ncols m.rowBases)),
+              ("column_bases", jMat (tab2 m.nrows m.ncols m.columnBases)),
+              ("table_bases", jMat (tab2 m.nrows m.ncols m.tableBases)),
+              ("merged_pos", jNat (SubSpec.mergedPos (c.dim ax) s.addendIdxs))])).toArray)
+  pure (jObj [("rows", one 0 rd.subtotals), ("cols", one 1 cd.subtotals)])
+
 /-- op `merge_matrix`: {base, nr, nc, rowsA, colsA} ↦ Spec merged matrix (rows merged, then columns) -/
 def opMergeMatrix : Handler := fun j => do
   let b := matFn (← getMat j "base")
@@ -344,6 +366,6 @@ def opMergeMatrix : Handler := fun j => do
 def ops : List (String × Handler) :=
   [("resolve_subtotals", opResolve), ("blocks", opBlocks), ("wavediff", opWaveDiff),
    ("stripe_blocks", opStripeBlocks), ("slice_sub", opSliceSub), ("strand_sub", opStrandSub),
-   ("share_sum", opShareSum), ("strand_share", opStrandShare), ("merge_matrix", opMergeMatrix)]
+   ("share_sum", opShareSum), ("strand_share", opStrandShare), ("merge_cube", opMergeCube), ("merge_matrix", opMergeMatrix)]
 
 end CrCube.Driver.Subtotals
